@@ -381,16 +381,29 @@ def compare_expr(a, b, points, exact=False) -> Cmp:
 
 
 def eq_truth(root, env):
-    """Truth value of an equation L = R at env: True/False, or raises EvalSkip.
-    Returns (truth, indeterminate)."""
+    """Three-valued truth of an equation L = R at env (raises EvalSkip outside the
+    domain).  Returns (truth, indeterminate).
+
+    * holds:      L and R agree exactly, or to 1e-9 of their own magnitude
+                  (rounding of folded constants);
+    * fails:      they differ by more than 1e-6 of the forward-error scale
+                  (which can be far larger than the magnitudes when a base or a
+                  divisor was computed with cancellation);
+    * otherwise indeterminate -- the point is not used.  Deciding "holds"
+      against the conditioning scale would be unsound: (-45 + 56)^10 = 6 would
+      "hold" because the scale of the left side is 101^10.
+    """
     l, sl = ev(root.left, env)
     r, sr = ev(root.right, env)
-    c = close(l, sl, r, sr)
-    if c in ("eq", "round"):
+    d = abs(l - r)
+    if d == 0:
         return True, False
-    if c == "indet":
-        return False, True
-    return False, False
+    mag = max(abs(l), abs(r))
+    if d <= TOL_OK * mag:
+        return True, False
+    if d > TOL_BAD * max(sl, sr, mag):
+        return False, False
+    return False, True
 
 
 def _residual(root, env):
